@@ -378,6 +378,10 @@ func roundTripAll(ctx context.Context, fd protoreflect.FileDescriptor, siblings 
 	parsed, err := tool.ParseProto(ctx, files, []string{fd.Path()})
 	if err != nil {
 		class := failureClass(err.Error())
+		if strings.Contains(err.Error(), "invalid character") {
+			// identifiers with non-ASCII letters: the BCL lexer and the compiler accept them, protobuf does not
+			class = "invalid character (identifier with a non-ASCII letter)"
+		}
 		if strings.Contains(err.Error(), "camel-case name") {
 			// enum options that differ only in case: the compiler accepts them, no proto parser does (NOTICE-4)
 			class = "camel-case name conflict of enum values (options that differ only in case)"
@@ -515,6 +519,8 @@ func runC05(cfg *vh.Config) error {
 	fileSeen := vh.Distinct{}
 	fileToks := map[string]int{}
 	maxFileToks := map[string]int{"repo-proto": cfg.Scale(24000, 400000), "compiled": cfg.Scale(30000, 600000), "hand-built": 100000}
+	pendingFiles := map[string][]func(){}
+	var emitFile func(stream string, fd protoreflect.FileDescriptor, out rtOut, lost bool, where string, input any)
 	addFile := func(stream string, fd protoreflect.FileDescriptor, out rtOut, fails []rtFailure, where string, input any) {
 		lost := false
 		for _, f := range fails {
@@ -531,6 +537,13 @@ func runC05(cfg *vh.Config) error {
 		fileSeen.Add(out.Txt1)
 		orders.file(fd)
 		orders.file(out.Fd2)
+		// which files get the full check within the token budget is drawn per run (pendingFiles, below), so that over
+		// the seeds every printed file is covered; the pinned hand-built cases always are
+		pendingFiles[stream] = append(pendingFiles[stream], func() {
+			emitFile(stream, fd, out, lost, where, input)
+		})
+	}
+	emitFile = func(stream string, fd protoreflect.FileDescriptor, out rtOut, lost bool, where string, input any) {
 		if fileToks[stream] >= maxFileToks[stream] {
 			res.Count("file-layer:over the token budget of this tier")
 			return
@@ -757,9 +770,17 @@ func runC05(cfg *vh.Config) error {
 	// ------------------------------------------------------------ stream 2: compiled j5s packages
 	rp := cfg.R.Fork("c05-packages")
 	nPkg := cfg.Scale(70, 1200)
-	for i := 0; i < nPkg; i++ {
-		p := genPackageOpt(rp, i%5 == 4, true)
-		src := p.text()
+	for i := -1; i < nPkg; i++ {
+		var p *gPackage
+		var src string
+		if i < 0 {
+			// pinned: a schema and a property name with non-ASCII letters (known finding, shared with C16)
+			p = &gPackage{Pkg: "uni.v1"}
+			src = "package uni.v1\n\nobject \u00c9lan {\n\tfield na\u00efve string\n}\n\nobject Plain {\n\tfield ref object:\u00c9lan\n}\n"
+		} else {
+			p = genPackageOpt(rp, i%5 == 4, true)
+			src = p.text()
+		}
 		caseNo++
 		distinct.Add("pkg:" + src)
 		res.Count("compiled")
@@ -774,6 +795,9 @@ func runC05(cfg *vh.Config) error {
 			}()
 			files, cerr = compile.Compile(ctx, map[string]string{strings.ReplaceAll(p.Pkg, ".", "/") + "/a.j5s": src}, p.Pkg)
 		}()
+		if i < 0 && cerr == nil {
+			res.Fail(vh.Failure{Case: caseNo, Stream: "compiled", Sig: "C05 package with non-ASCII identifiers -> accepted by the compiler (names that are not protobuf identifiers must be a compile error, /repo c71d8d9)", Clause: "parsing and linking the printed text yields a descriptor", Input: input, Got: "compiled"})
+		}
 		if cerr != nil {
 			res.Count("compiled:rejected by the compiler")
 			if len(res.Notes) < 12 {
@@ -939,6 +963,17 @@ func runC05(cfg *vh.Config) error {
 		Check:  "c05_file_check",
 	}
 	const perFile = 6
+	pick := cfg.R.Fork("c05-file-pick")
+	for _, stream := range []string{"hand-built", "repo-proto", "compiled"} {
+		pend := pendingFiles[stream]
+		for i := len(pend) - 1; i > 0; i-- { // Fisher-Yates with the run's PRNG
+			j := pick.Intn(i + 1)
+			pend[i], pend[j] = pend[j], pend[i]
+		}
+		for _, f := range pend {
+			f()
+		}
+	}
 	for i, c := range fileCases {
 		caseNo++
 		res.Count("file")
